@@ -70,6 +70,8 @@ Definition lift_mres (m : mres) (r : string) (k : fobj -> mval) : pres mval :=
   match m with MOk f => POk (k f) r | MErr e => PAbort e end.
 
 Definition Qsum_list (l : list Q) : Q := fold_left Qplus l 0%Q.
+(* Python's sum() over the doubles float(v): every partial sum is rounded to binary64 *)
+Definition Fsum_list (l : list Q) : Q := fold_left (fun a x => round64 (a + round64 x)%Q) l 0%Q.
 
 Definition apply_dkind (E : aenv) (m : mval) (d : dkind) : mval :=
   match d with
@@ -142,7 +144,9 @@ Fixpoint p_nt (E : aenv) (T : ptable) (fuel : nat) (k : nt) (s : string) : pres 
           let* (items, r4) := loop (S (String.length r3)) [(m1, c1)] r3 in
           let* (_, r5) := p_partsep r4 in
           let* (mlast, r6) := rec NMixture r5 in
-          let last := (100 - Qsum_list (map snd items))%Q in
+          (* 100 - sum(fract) in doubles: for a remainder far below the stated percentages the representation
+             error of the stated numbers is what the last component receives, exactly as in the code *)
+          let last := round64 (100 - Fsum_list (map snd items))%Q in
           if Qle_bool 0 last then
             let pairs := map (fun p => (m_f (fst p), snd p)) (items ++ [(mlast, last)])%list in
             lift_mres ((if vol then mix_by_volume_pairs else mix_by_weight_pairs) E pairs) r6 plain
